@@ -119,7 +119,7 @@ def run(ctx):
     with open(ctx.path("trace.ndjson")) as f:
         for line in f:
             events.append(json.loads(line))
-            if len(events) >= 3000:
+            if len(events) >= 12000:
                 break
     selftest = {"skipped": "the recorded trace itself was rejected; the self-test needs conforming events"}
     k1 = next((i for i, e in enumerate(events) if e["ev"] == "num" and e["f"] == "inc" and e["res"]["t"] == "n" and e["res"]["v"]["lo"] > 3), None)
